@@ -40,9 +40,9 @@ CHECKS = {
         'engine': 'verus-contracts',
     },
     'C09': {
-        'text': 'Proof (Kani function contract on the real GameTime::calculate_time_slice, loop-free, full i128 x Option<u32> domain, both colours, IEEE-754 bit-precise): with more than the 100 ms margin the slice never exceeds the MOVER clock; with no usable clock and no increment it is zero; a cover harness shows all three regimes reachable. The sharp "80% of (clock-margin)/moves-to-go" clause and side-independence are BOUNDED (thorough tier: i16 clock, movestogo absent or 1..64).',
+        'text': 'Proof (Kani function contract on the real GameTime::calculate_time_slice, loop-free, full i128 x Option<u32> domain, both colours, IEEE-754 bit-precise): with more than the 100 ms margin the slice never exceeds the MOVER clock; with no usable clock and no increment it is zero; a cover harness shows all three regimes reachable. The sharp "80% of (clock-margin)/moves-to-go" clause and side-independence are BOUNDED (quick: clock 101..355 ms, movestogo absent/1..3/31..33; thorough: i16 clock, movestogo absent or 1..64). parse_go_command routing: BOUNDED (native stand-in on seeded random go lines; thorough: Kani on the real function for every `go <key> <1-3 digit value>` line).',
         'design_ref': 'DESIGN.md 4/C09',
-        'note': 'Trusted: Kani/CBMC/CaDiCaL. Precondition movestogo >= 1. Not decided: parse_go_command routing, actual wall-clock delay.',
+        'note': 'Trusted: Kani/CBMC/CaDiCaL. Precondition movestogo >= 1. Not decided: actual wall-clock delay; go lines beyond the bounded domains.',
         'technique': 'Kani function contract (proof_for_contract) over the full input domain',
         'engine': 'kani-contracts',
     },
